@@ -138,7 +138,8 @@ fn copy_params(p: &anstyle_parse::Params, problem: &mut Option<String>) -> Vec<V
     // the iterator adapters a performer may use see the same groups: nth / skip / step_by / last / count / a partly
     // consumed iterator; Clone and Debug of the parameter list itself
     let n = v.len();
-    if p.iter().take(80).count() != n || p.iter().take(80).last().map(|g| g.to_vec()) != v.last().cloned() {
+    // (count() / last() are called on the iterator itself, so that an implementation's own shortcuts are exercised)
+    if p.iter().count() != n || p.iter().take(80).count() != n || p.iter().last().map(|g| g.to_vec()) != v.last().cloned() {
         *problem = Some("Params::iter().count() / last() disagree with plain iteration".to_string());
     }
     for j in 0..=n.min(4) {
@@ -169,6 +170,9 @@ fn copy_params(p: &anstyle_parse::Params, problem: &mut Option<String>) -> Vec<V
         *problem = Some("a clone of the parameter list differs from the original".to_string());
     }
     let (lo, hi) = p.iter().size_hint();
+    if lo > n && lo > total {
+        *problem = Some(format!("size_hint lower bound {lo} exceeds both the {n} groups and the {total} numbers"));
+    }
     if lo > total || hi.map_or(false, |h| h < v.len()) {
         *problem = Some(format!("size_hint ({lo},{hi:?}) inconsistent with {} groups / {} numbers", v.len(), total));
     }
